@@ -1,16 +1,104 @@
 /- line-protocol handlers for the C15 models (Model/Fixed.lean) -/
 import FontVerif.Model.Fixed
+import FontVerif.Model.Ieee
+import FontVerif.Model.FixedConv
+import FontVerif.Model.Scalars
 namespace FontVerif.Drv.C15
-open FontVerif FontVerif.Fixed
+open FontVerif FontVerif.Fixed FontVerif.Ieee FontVerif.Scalars
 
 def optInt : Option Int → String
   | none => "trap"
   | some v => toString v
 
+/-- type code of the line protocol → fixed-point type (`<int bits><fract bits>`). -/
+def fxTy? : Int → Option FixedConv.FxTy
+  | 214 => some FixedConv.F2Dot14
+  | 412 => some FixedConv.F4Dot12
+  | 610 => some FixedConv.F6Dot10
+  | 1616 => some FixedConv.Fixed
+  | 266 => some FixedConv.F26Dot6
+  | _ => none
+
+def fmt? : Int → Option Fmt
+  | 32 => some f32
+  | 64 => some f64
+  | _ => none
+
+def kind? : Int → Nat → Option Kind
+  | 0, n => some (.u n)
+  | 1, n => some (.s n)
+  | 2, 3 => some .i24
+  | 3, 3 => some .u24
+  | 4, 4 => some .tag
+  | 5, 4 => some .mm
+  | _, _ => none
+
+def optI : Option Int → String
+  | none => "none"
+  | some v => toString v
+
+def b01 (b : Bool) : String := if b then "1" else "0"
+
+/-- float conversions, `OtRound`, ordering and the remaining scalar types. -/
+def handle2 (cmd : String) (xs : List Int) : Option String :=
+  match cmd, xs with
+  | "fl.dec", [f, bits] => (fmt? f).map fun f => (decode f bits.toNat).show
+  | "fl.from", [t, bits] => (fxTy? t).map fun t => toString (FixedConv.fromFloat t (decode t.fmt bits.toNat))
+  | "fl.to", [t, raw] => (fxTy? t).map fun t => (FixedConv.toFloat t raw).show
+  | "fl.tof32", [k, raw] => some (FixedConv.toF32Lossy k.toNat raw).show
+  | "otr.i16", [f, bits] => (fmt? f).map fun f =>
+      toString (FixedConv.otRoundInt f (-32768) 32767 (decode f bits.toNat))
+  | "otr.u16", [f, bits] => (fmt? f).map fun f =>
+      toString (FixedConv.otRoundInt f 0 65535 (decode f bits.toNat))
+  | "otr.f", [f, bits] => (fmt? f).map fun f => (FixedConv.otRoundF f (decode f bits.toNat)).show
+  | "otr.point", [bx, by'] =>
+      some s!"{FixedConv.otRoundInt f64 (-32768) 32767 (decode f64 bx.toNat)} {FixedConv.otRoundInt f64 (-32768) 32767 (decode f64 by'.toNat)}"
+  | "otr.vec2", [bx, by'] =>
+      some s!"{(FixedConv.otRoundF f64 (decode f64 bx.toNat)).show} {(FixedConv.otRoundF f64 (decode f64 by'.toNat)).show}"
+  | "ord.be", kc :: n :: rest =>
+      match kind? kc n.toNat with
+      | none => none
+      | some k =>
+        if rest.length ≠ 2 * n.toNat then none else
+        let a := rest.take n.toNat
+        let b := rest.drop n.toNat
+        some s!"{showOrd (beCmp k a b)} {match bePartialCmp k a b with | some o => showOrd o | none => "none"} {b01 (beEq a b)} {b01 (beEqValue k a (key k b))}"
+  | "ord.nat", [a, b] => some (showOrd (cmpInt a b))
+  | "ord.lex", n :: rest =>
+      if rest.length ≠ 2 * n.toNat then none else
+      some (showOrd (lexCmp (rest.take n.toNat) (rest.drop n.toNat)))
+  | "ord.gidx", [a, b] => some (match gidCrossCmp a b with | some o => showOrd o | none => "none")
+  | "i24.checked", [a] => some (optI (int24Checked a))
+  | "u24.checked", [a] => some (optI (uint24Checked a))
+  | "u24.tryfrom", [a] => some (optI (uint24TryFromUsize a))
+  | "ver.new", [ma, mi] => some (optInt (versionNew ma mi))
+  | "ver.mm", [v] => let p := versionToMajorMinor v; some s!"{p.1} {p.2}"
+  | "ver.compat", [a, b] => some (b01 (versionCompatible a b))
+  | "ver.compat2", [a, ma, mi] =>
+      some (match versionCompatiblePair a ma mi with | none => "trap" | some b => b01 b)
+  | "mm.compat", [a, b, c, d] => some (b01 (mmCompatible a b c d))
+  | "u16.compat", [a, b] => some (b01 (u16Compatible a b))
+  | "mm.tobe", [a, b] => some (joinInts (mmToBe a b))
+  | "mm.fromraw", [a, b, c, d] => let p := mmFromRaw a b c d; some s!"{p.1} {p.2}"
+  | "fw.tofixed", [v] => some (toString (fwordToFixed v))
+  | "off.null", [v] => some (b01 (offsetIsNull v))
+  | "gid.try", [v] => some (match gid16TryFrom v with | .ok g => s!"ok {g}" | .error e => s!"err {e}")
+  | "tag.checked", src =>
+      some (match tagNewChecked src with | .ok l => "ok " ++ joinInts l | .error e => showTagErr e)
+  | "tag.validate", [a, b, c, d] =>
+      some (match tagValidate [a, b, c, d] with | .ok _ => "ok" | .error e => showTagErr e)
+  | "tag.fromu32", [v] => some (joinInts (tagFromU32 v))
+  | "nid.reserved", [v] => some (b01 (nameIdIsReserved v))
+  | "nid.add", [a, b] => some (optI (nameIdCheckedAdd a b))
+  | _, _ => none
+
 def handle (cmd : String) (args : List String) : Option String :=
   match parseInts? args with
   | none => none
   | some xs =>
+    match handle2 cmd xs with
+    | some r => some r
+    | none =>
     match cmd, xs with
     | "fx.mul", [a, b] => some (toString (mul a b))
     | "fx.div", [a, b] => some (toString (div a b))
